@@ -1,12 +1,12 @@
 SPECIFICATION Spec
 CONSTANTS
-  Leaves = {"decl", "atstmt", "loud", "error"}
-  Conts = {"rule", "nsprop", "media", "atrule", "mixin", "content", "if1", "else", "each2", "while2", "func", "import", "use", "loadcss"}
+  Leaves = {"decl", "atstmt", "error"}
+  Conts = {"rule", "nsprop", "media", "atrule", "mixin", "content", "if1", "each2", "func", "import", "loadcss"}
   MaxStmts = 5
   MaxDepth = 4
   Strict = FALSE
   Styles = {"expanded"}
-  Need = {"decl", "atstmt", "loud", "atrule", "error"}
+  Need = {"decl", "atstmt", "atrule", "error"}
   MaxOf <- LimC21t
 INVARIANTS InvLaws Emit21
 CHECK_DEADLOCK FALSE
